@@ -45,11 +45,18 @@ func main() {
 		fn()
 		c.Count("section_ms_"+section, time.Since(t0).Milliseconds())
 	}
+	// The sequential model sections of BOTH queue types run first: whatever is observable
+	// without concurrency (wrong element, wrong size, stranded elements after a Clear, an
+	// eviction loop that does not end) is reported within seconds, before any section that
+	// has to wait for other goroutines.
 	for kind, tag := range []string{"rq", "dq"} {
 		kind := kind
 		timed("seq", func() {
 			c.Cases("seq-"+tag, n(6000, 300000, 800, 20000), func(i int, r *vlib.Rand) { seqCase(c, kind, i, r) })
 		})
+	}
+	for kind, tag := range []string{"rq", "dq"} {
+		kind := kind
 		timed("conc", func() {
 			c.Cases("conc-"+tag, n(240, 6000, 96, 2000), func(i int, r *vlib.Rand) { concCase(c, kind, i, r) })
 		})
@@ -63,6 +70,9 @@ func main() {
 			c.Cases("timed-"+tag, n(32, 1200, 8, 200), func(i int, r *vlib.Rand) { timedCase(c, kind, i, r) })
 		})
 	}
+	if len(abandonedSections) > 0 {
+		c.Count("abandoned_sections", int64(len(abandonedSections)))
+	}
 	// observation floors (per shard; ≤ 10 % of what a healthy quick run reaches)
 	if race {
 		c.Floor("conc_histories", 4, c.Counter("conc_histories"))
@@ -72,6 +82,8 @@ func main() {
 		c.Floor("seq_ops", 20000, c.Counter("seq_ops"))
 		c.Floor("seq_refused_puts", 500, c.Counter("seq_refused_puts"))
 		c.Floor("seq_evictions", 500, c.Counter("seq_evictions"))
+		c.Floor("seq_clear_nonempty", 300, c.Counter("seq_clear_nonempty"))
+		c.Floor("seq_deliveries_after_nonempty_clear", 3000, c.Counter("seq_deliveries_after_nonempty_clear"))
 		c.Floor("conc_histories", 5, c.Counter("conc_histories"))
 		c.Floor("conc_delivered", 10000, c.Counter("conc_delivered"))
 		c.Floor("conc_consumers_parked_before_first_put", 10, c.Counter("conc_consumers_parked_before_first_put"))
